@@ -214,7 +214,8 @@ def to_blackbird(prog: Program, version: str = "1.0") -> blackbird.BlackbirdProg
                     op["kwargs"]["dark_counts"] = cmd.op.dark_counts
 
         else:
-            for a in cmd.op.p:
+            # gates without constructor arguments (Fouriergate) keep an internal parameter in ``p``
+            for a in [] if isinstance(cmd.op, ops.zero_args_gates) else cmd.op.p:
                 if sfpar.par_is_symbolic(a):
                     # SymPy object, convert to string
                     if any(map(isMeasuredParameter, a.free_symbols)):
